@@ -19,7 +19,17 @@ fn inputs() -> Vec<String> {
     v
 }
 
-fn run(name: &str, f: fn(&Case) -> R) -> Option<(Case, &'static str, u64)> {
+/// what a failed contract check is about: 'safety' (cursor off a boundary / not a suffix of the input / panic),
+/// 'error' (content of the reported or recorded error) or 'value' (match / no match, value, bytes consumed)
+fn class_of(why: &str) -> &'static str {
+    if why.contains("boundary") || why.contains("suffix") || why.contains("panic") { "safety" }
+    else if why.contains("error") { "error" }
+    else { "value" }
+}
+
+/// the first failing case PER CLASS; the enumeration always runs to the end
+fn run(name: &str, f: fn(&Case) -> R) -> (Vec<(&'static str, Case, &'static str, u64)>, u64) {
+    let mut fails: Vec<(&'static str, Case, &'static str, u64)> = vec![];
     let mut count = 0u64;
     for input in inputs() {
         if !uses(name, "input") && !input.is_empty() { continue; }
@@ -44,7 +54,11 @@ fn run(name: &str, f: fn(&Case) -> R) -> Option<(Case, &'static str, u64)> {
                                 for (k1, k2, k3) in keys(name) {
                                     let case = Case { buf, len: input.len(), start, far, c: *c, c2, lit: l, lit_len: lit.len(), n, k1, k2, k3 };
                                     count += 1;
-                                    if let Err(why) = f(&case) { return Some((case, why, count)); }
+                                    let verdict = match std::panic::catch_unwind(|| f(&case)) { Ok(v) => v, Err(_) => Err("the real function panicked") };
+                                    if let Err(why) = verdict {
+                                        let cl = class_of(why);
+                                        if !fails.iter().any(|x| x.0 == cl) { fails.push((cl, case, why, count)); }
+                                    }
                                 }
                             }
                         }
@@ -53,8 +67,7 @@ fn run(name: &str, f: fn(&Case) -> R) -> Option<(Case, &'static str, u64)> {
             }
         }
     }
-    println!("TWIN-PASS {name} cases={count}");
-    None
+    (fails, count)
 }
 
 /// memo-table keys worth trying: small offsets, around powers of two and typical table sizes, the extremes
@@ -122,6 +135,7 @@ fn show(case: &Case) -> String {
 }
 
 fn main() {
+    std::panic::set_hook(Box::new(|_| {}));
     let args: Vec<String> = std::env::args().collect();
     match args.get(1).map(|s| s.as_str()) {
         Some("enumerate") => {
@@ -129,12 +143,12 @@ fn main() {
             let mut bad = false;
             for (name, f) in CHECKS {
                 if which != "all" && which != *name { continue; }
-                let r = std::panic::catch_unwind(|| run(name, *f));
-                match r {
-                    Ok(None) => {}
-                    Ok(Some((case, why, count))) => { bad = true; println!("TWIN-FAIL {name} after={count} why={why:?} case={} kv={}", show(&case), kv(&case)); }
-                    Err(_) => { bad = true; println!("TWIN-FAIL {name} why=\"panic\" case={{}}"); }
+                let (fails, count) = run(name, *f);
+                for (cl, case, why, after) in &fails {
+                    bad = true;
+                    println!("TWIN-FAIL {name} class={cl} after={after} why={why:?} case={} kv={}", show(case), kv(case));
                 }
+                if fails.is_empty() { println!("TWIN-PASS {name} cases={count}"); } else { println!("TWIN-DONE {name} cases={count}"); }
             }
             std::process::exit(if bad { 1 } else { 0 });
         }
